@@ -63,7 +63,7 @@ def main():
     nt = set()
     limit = getattr(mod, 'CASE_LIMIT_S', 120)
     for i in range(w, n, jobs):
-        if time.time() - t0 > deadline:
+        if time.time() - t0 > deadline or len(agg['violations']) >= 40:
             agg['stopped_early'] = True
             break
         rng = case_rng(seed, i, cid)
